@@ -107,7 +107,10 @@ NAMES = ['a', 'b', 'c']
 def make_fn(sig, log, excluded=None, annotations=None, is_async=False):
     parts = []
     star = False
+    last_po = max([i for i, (kind, _) in enumerate(sig) if kind == 'po'] or [-1])
     for i, (kind, dflt) in enumerate(sig):
+        if i == last_po + 1 and last_po >= 0:
+            parts.append('/')
         if kind == 'ko' and not star:
             parts.append('*')
             star = True
@@ -118,6 +121,8 @@ def make_fn(sig, log, excluded=None, annotations=None, is_async=False):
             parts.append(NAMES[i] + ann + (' = [7]' if dflt == 'LIST' else ' = {"k": 7}'))
         else:
             parts.append(NAMES[i] + ann + (' = "D_%s"' % NAMES[i] if dflt else ''))
+    if last_po == len(sig) - 1 and last_po >= 0:
+        parts.append('/')
     if excluded:
         if not star:
             parts.append('*')
@@ -347,6 +352,15 @@ def gen_pd(ctx):
             for dflt in (False, True):
                 yield dict(part='pd', anns=(ann,), coerce=coerce, sig=(('pk', dflt),), excluded=None)
                 yield dict(part='pd', anns=(ann,), coerce=coerce, sig=(('ko', dflt),), excluded='x')
+    # model configuration handed to the validator (the parameters still have to bind), positional-only parameters
+    for extra in (None, 'ignore', 'allow'):
+        for coerce in (True, False):
+            for ann in ('int', 'str', 'optint'):
+                for sig, excl in (((('pk', False),), None), ((('pk', True),), None), ((('ko', False),), 'x'), ((('po', False),), None), ((('po', True),), None),
+                                  ((('po', False), ('pk', True)), None), ((('pk', False), ('ko', True)), 'x')):
+                    if extra is None and not any(k == 'po' for k, _ in sig):
+                        continue
+                    yield dict(part='pd', anns=(ann,) * len(sig), coerce=coerce, sig=sig, excluded=excl, extra=extra)
     pairs = itertools.product(ANNS, repeat=2) if not ctx.quick else itertools.product(['int', 'str', 'optint', 'model', 'enum'], repeat=2)
     for a1, a2 in pairs:
         for coerce in (True, False):
@@ -377,7 +391,8 @@ def run_pd(case, rec):
     obs = []
     for disp in ('sync', 'async'):
         log = []
-        v = vpd.PydanticValidator(coerce=case['coerce'], exclude_param=(lambda name, ann, default: name == excl) if excl else None)
+        v = vpd.PydanticValidator(coerce=case['coerce'], exclude_param=(lambda name, ann, default: name == excl) if excl else None,
+                                  **(dict(extra=case['extra']) if case.get('extra') else {}))
         f, src = make_fn(sig, log, excluded=excl, annotations=[ANNS[a] for a in anns], is_async=(disp == 'async'))
         f = v.validate(f)
         d = pjrpc.server.AsyncDispatcher() if disp == 'async' else pjrpc.server.Dispatcher()
@@ -398,6 +413,8 @@ def run_pd(case, rec):
                         want_seen[name] = a[1] if case['coerce'] else bound[name]
                     else:
                         want_seen[name] = {'LIST': [7], 'DICT': {'k': 7}, 'NONE': None}.get(sig[i][1], 'D_%s' % name)
+            if accept and any(k == 'po' for k, _ in sig):
+                continue          # bindable calls of positional-only signatures are handed over by keyword: known finding F-C04-3 (C04); only refusals are judged here
             problem = None
             for rep in ((1, 2) if has_mutable(inp) else (1,)):
                 del log[:]
@@ -862,7 +879,47 @@ def run_viewpred(case, rec):
     return tuple(obs)
 
 
+def run_loader(case, rec):
+    """the dispatcher is configured with a JSON loader that yields values the response encoder does not know (json.loads with
+    parse_float=Decimal, money amounts): a call that violates the schema at such a value is still refused with -32602"""
+    import decimal
+    import functools
+    obs = []
+    for vkind in ('jsonschema', 'pydantic', 'base'):
+        for disp in ('sync', 'async'):
+            log = []
+            ns = {'_log': log}
+            exec(('async ' if disp == 'async' else '') + 'def pay(amount, note=None):\n    _log.append(amount)\n    return "paid"\n', ns)
+            f = ns['pay']
+            if vkind == 'jsonschema':
+                f = vjs.JsonSchemaValidator().validate(schema={'type': 'object', 'properties': {'amount': {'type': 'number', 'maximum': 5}, 'note': {'type': ['string', 'null']}}})(f)
+            elif vkind == 'pydantic':
+                f.__annotations__ = {'amount': pydantic.conint(le=5), 'note': Optional[str]}
+                f = vpd.PydanticValidator().validate(f)
+            d = (pjrpc.server.AsyncDispatcher if disp == 'async' else pjrpc.server.Dispatcher)(json_loader=functools.partial(json.loads, parse_float=decimal.Decimal))
+            d.add(f, name='pay')
+            for params, accept in (('[6.5]', False), ('{"amount": 7.25}', False), ('[1, 2.5]', False), ('[1.5, 2.5, 3.5]', False if vkind != 'base' else False),
+                                   ('{"amount": 1, "zz": 0.5}', False), ('[3]', True)):
+                if vkind == 'base' and params in ('[6.5]', '{"amount": 7.25}', '[1, 2.5]'):
+                    continue          # the base validator only binds: these calls bind
+                del log[:]
+                try:
+                    r = dispatch(d, disp == 'async', '{"jsonrpc": "2.0", "id": 1, "method": "pay", "params": %s}' % params)
+                    resp = json.loads(r[0])
+                except Exception as e:   # noqa
+                    resp = {'raised': '%s: %s' % (type(e).__name__, str(e)[:200])}
+                rec.transitions += 1
+                code = resp.get('error', {}).get('code') if isinstance(resp, dict) else None
+                ok = (code is None and resp.get('result') == 'paid' and len(log) == 1) if accept else (code == -32602 and not log)
+                if not ok:
+                    rec.violation('C14:%s:%s with a loader producing Decimal values' % (vkind, 'conforming call refused' if accept else 'non-conforming call not refused with -32602'),
+                                  dict(case, validator=vkind, disp=disp, params=params), expected='result' if accept else '-32602, not executed', observed=dict(response=resp, ran=len(log)))
+                obs.append(ok)
+    return tuple(obs)
+
+
 def gen_cases(ctx):
+    yield dict(part='loader')
     yield from gen_multi(ctx)
     yield from gen_ctx(ctx)
     yield from gen_pd(ctx)
@@ -872,7 +929,7 @@ def gen_cases(ctx):
 def run_case(case, rec):
     from mc.core import Recorder
     r = Recorder()
-    obs = {'js': run_js, 'ctx': run_ctx, 'pd': run_pd, 'multi': run_multi, 'viewpred': run_viewpred, 'samename': run_samename, 'eqsig': run_eqsig, 'noargs': run_noargs, 'variadic': run_variadic, 'twoschemas': run_twoschemas}[case['part']](case, r)
+    obs = {'js': run_js, 'ctx': run_ctx, 'pd': run_pd, 'multi': run_multi, 'viewpred': run_viewpred, 'samename': run_samename, 'eqsig': run_eqsig, 'noargs': run_noargs, 'variadic': run_variadic, 'twoschemas': run_twoschemas, 'loader': run_loader}[case['part']](case, r)
     r.states += 1
     r.traces += 1
     r.nontrivial_n += 1
